@@ -136,6 +136,11 @@ def run_concurrent(chk, plans, seed, tag="conc"):
                 why = (f"{m['threads']} threads completed {m['guards_per_thread']} owned guards each at the same moment; the completed, "
                        f"non-discarded spans add up to {st.get('expected')} ticks, closing the stopwatch reports {ev.get('total')} "
                        f"(-1 = nothing)")
+            elif ev.get("ev") == "CloseDuring":
+                why = (f"while {m['threads']} threads were completing their owned guards the creating thread closed &stopwatch: kept "
+                       f"completions worth {ev.get('lo')} ticks had returned before that close started (at most {ev.get('hi')} had been "
+                       f"started when it returned), total before the phase {st.get('expected')}; the close reports {ev.get('total')} "
+                       f"(-1 = nothing)")
             else:
                 why = f"event {json.dumps(ev)[:200]} is not allowed here"
             rej.append(m["id"])
@@ -151,6 +156,7 @@ def run_concurrent(chk, plans, seed, tag="conc"):
         ex = chk.extra.setdefault("concurrent", {"rounds": 0, "guards_completed_concurrently": 0})
         ex["rounds"] += len(metas)
         ex["guards_completed_concurrently"] += sum(m["completed"] for m in metas)
+        ex["closes_while_completing"] = ex.get("closes_while_completing", 0) + sum(m["closes_while_completing"] for m in metas)
         chk.nontrivial.update(f"conc:{m['seed']}:{threads}x{guards}" for m in metas)
     return rejected
 
